@@ -358,7 +358,14 @@ def collect_output(run, leg, out):
             elif j.get('t') == 'summary':
                 summary = j
     # cases executed before a crash are not summarised by the dead worker; count them from the prog file in caller
+    dg = set()
+    try:
+        with open(out + '.dg', 'rb') as f: data = f.read()
+        dg = set(struct.unpack('<%dQ' % (len(data) // 8), data[:len(data) // 8 * 8]))
+    except Exception:
+        pass
     with run.lock:
+        run.digests.setdefault(leg.name, set()).update(dg)
         m = run.summaries.setdefault(leg.name, dict(cases=0, stats={}, samples=[], violkeys={}, distinct=0, nontrivial=0, workers=0))
         if summary:
             m['cases'] += summary.get('cases', 0); m['workers'] += 1
@@ -471,13 +478,18 @@ def main_check(prop, spec, tier, seed, replay=None):
         for dl in (v['detail'] or '').splitlines()[:12]: print('  | ' + dl)
     # ---- evidence
     evaluations = sum(s['cases'] for s in run.summaries.values())
-    nontrivial = sum(s['nontrivial'] for s in run.summaries.values())
+    # distinct non-trivial cases: union of the workers' digest sidecars per leg (distinct ACROSS workers; each sidecar is capped, so this
+    # can only under-count); the plain sum of the workers' own counts is kept per leg for comparison
+    allnt = set()
+    for d in run.digests.values(): allnt |= d      # a case replayed by another leg (e.g. under memcheck) is counted once
+    nontrivial = len(allnt)
     samples = []
     for name, s in sorted(run.summaries.items()):
         for x in s['samples'][:3]: samples.append({'leg': name, 'case': x})
     legs_cov = {}
     for name, s in sorted(run.summaries.items()):
-        legs_cov[name] = dict(cases=s['cases'], distinct=s['distinct'], nontrivial=s['nontrivial'], stats=s['stats'])
+        legs_cov[name] = dict(cases=s['cases'], distinct=s['distinct'], nontrivial_sum_of_worker_counts=s['nontrivial'],
+                              distinct_nontrivial_across_workers=len(run.digests.get(name, ())), stats=s['stats'])
     min_distinct = spec.get('min_distinct', 2)
     for leg in legs:
         total = leg.quick if tier == 'quick' else leg.thorough
